@@ -3,6 +3,13 @@
 //! The protocol below is the contract with `lean/CwPlus/CwPlus/Driver/Cw3Flex.lean`; the same text is in
 //! `docs/proto_cw3flex.md`.
 // SCENARIO cw3flex crate::scen_cw3flex::FlexScen::new()
+// SCENARIO cw3flexwide crate::scen_cw3flex::FlexScen::new_wide()
+//
+// `cw3flexwide` (C20, header field `wide=1`): a pool of 36, groups of 30–36 members, long voting periods, many cheap
+// proposals / many votes on one proposal and frequent explicit page requests, so ListProposals, ReverseProposals,
+// ListVotes, ListVoters and the group's ListMembers exceed the default and the maximum page size.  To keep the
+// observation affordable, in wide mode `snap` probes only the start heights of the two most recent proposals and
+// `pvotes` queries only the voters that the proposal's ListVotes walk returned (the Lean driver does the same).
 //
 // HEADER   scenario cw3flex seed=<n> trace=<n> pool=<a0,…,a5> cw20=<addr> group=<addr> flex=<addr> ghost=<addr>
 //          pool  = the EOA actors; cw20/group/flex = the (deterministic) contract addresses;
@@ -30,6 +37,12 @@
 //   exec <snd> execute id=<n>
 //   exec <snd> close id=<n>
 //   exec <snd> member_changed_hook                   (diffs = []; <snd> may be the group address)
+//   query list_proposals after=<id|-> limit=<n|->        result=<id>:<status>,…
+//   query reverse_proposals before=<id|-> limit=<n|->    result=<id>:<status>,…   (descending)
+//   query list_votes id=<n> after=<±addr|-> limit=<n|->  result=<voter>:<vote>:<weight>,…
+//   query list_voters after=<±addr|-> limit=<n|->        result=<addr>:<w>,…      (flex ListVoters)
+//   query list_members after=<±addr|-> limit=<n|->       result=<addr>:<w>,…      (group ListMembers)
+//          (queries have an outcome line `> ok result=…` / `> err`, no observation)
 //
 // MSGS  canonical text of a message list: items joined by `;`, no blanks
 //   bank/<to>/<amt><denom>            BankMsg::Send of one coin (from the multisig)
@@ -49,6 +62,7 @@
 //   > ok | > err                              inst, group, cw20 ops
 //
 // OBSERVATION (after every op except env; `!err` = the query failed / panicked)
+//   pagediff=<text|empty>          the harness' own C20 audit of the five listings (common::paging_audit)
 //   thr=<THR>                      Threshold{}; THR = count:<w>:<total> | pct:<p>:<total> | quorum:<t>:<q>:<total>
 //   cfg=<THR0>|<period>|<group>|<executor>|<DEP>                  Config{}
 //   props=<P>,…   rprops=<P>,… (descending)   pprops=<P>,… (ids 1..n+1; a missing id is `<id>|-`)
@@ -146,6 +160,12 @@ pub struct FlexScen {
     fresh_inst: bool,
     /// generator: proposals whose Execute failed in dispatch (retried less often)
     exec_failed: Vec<u64>,
+    /// `cw3flexwide` (C20)
+    wide: bool,
+    /// generator (wide): 0 = proposal-heavy trace, 1 = vote-heavy trace
+    mode: u64,
+    /// generator (wide): the group may have been written in the current block (leave the block before proposing)
+    group_dirty: bool,
 }
 
 fn default_block() -> BlockInfo {
@@ -268,7 +288,16 @@ impl FlexScen {
             last_env: false,
             fresh_inst: false,
             exec_failed: vec![],
+            wide: false,
+            mode: 0,
+            group_dirty: false,
         }
+    }
+
+    pub fn new_wide() -> Self {
+        let mut s = Self::new();
+        s.wide = true;
+        s
     }
 
     fn universe(&self) -> Vec<Addr> {
@@ -390,12 +419,55 @@ impl FlexScen {
                 None => return "!err".to_string(),
                 Some(p) if p.is_empty() => break,
                 Some(p) => {
-                    cursor = Some(p.last().unwrap().0.clone());
+                    let next = Some(p.last().unwrap().0.clone());
+                    if next == cursor {
+                        break; // no progress (a defect in the code under test): do not walk forever
+                    }
+                    cursor = next;
                     out.extend(p.into_iter().map(|x| x.1));
                 }
             }
         }
         out.join(",")
+    }
+
+    fn q_list_props(&self, after: Option<u64>, limit: Option<u32>) -> Option<Vec<String>> {
+        self.qs::<ProposalListResponse>(&self.flex, &FlexQuery::ListProposals { start_after: after, limit })
+            .map(|r| r.proposals.iter().map(|p| format!("{}:{}", p.id, render_status(p.status))).collect())
+    }
+    fn q_rev_props(&self, before: Option<u64>, limit: Option<u32>) -> Option<Vec<String>> {
+        self.qs::<ProposalListResponse>(&self.flex, &FlexQuery::ReverseProposals { start_before: before, limit })
+            .map(|r| r.proposals.iter().map(|p| format!("{}:{}", p.id, render_status(p.status))).collect())
+    }
+    fn q_list_votes(&self, id: u64, after: Option<String>, limit: Option<u32>) -> Option<Vec<String>> {
+        self.qs::<VoteListResponse>(&self.flex, &FlexQuery::ListVotes { proposal_id: id, start_after: after, limit })
+            .map(|r| r.votes.iter().map(|v| format!("{}:{}:{}", v.voter, render_vote(v.vote), v.weight)).collect())
+    }
+    fn q_list_voters(&self, after: Option<String>, limit: Option<u32>) -> Option<Vec<String>> {
+        self.qs::<VoterListResponse>(&self.flex, &FlexQuery::ListVoters { start_after: after, limit })
+            .map(|r| r.voters.iter().map(|v| format!("{}:{}", v.addr, v.weight)).collect())
+    }
+    fn q_list_members(&self, after: Option<String>, limit: Option<u32>) -> Option<Vec<String>> {
+        self.qs::<MemberListResponse>(&self.group, &GroupQuery::ListMembers { start_after: after, limit })
+            .map(|r| r.members.iter().map(|m| format!("{}:{}", m.addr, m.weight)).collect())
+    }
+    /// the voters of all ballots of a proposal (page size 30)
+    fn voted_on(&self, id: u64) -> Vec<String> {
+        let mut out: Vec<String> = vec![];
+        let mut cur: Option<String> = None;
+        for _ in 0..1000 {
+            match self.q_list_votes(id, cur.clone(), Some(30)) {
+                Some(p) if !p.is_empty() => {
+                    out.extend(p.iter().map(|e| e.split(':').next().unwrap().to_string()));
+                    if cur == out.last().cloned() {
+                        break;
+                    }
+                    cur = out.last().cloned();
+                }
+                _ => break,
+            }
+        }
+        out
     }
 
     fn members(&self) -> Vec<(Addr, u64)> {
@@ -404,7 +476,11 @@ impl FlexScen {
         loop {
             match self.qs::<MemberListResponse>(&self.group, &GroupQuery::ListMembers { start_after: cursor.clone(), limit: Some(30) }) {
                 Some(r) if !r.members.is_empty() => {
-                    cursor = Some(r.members.last().unwrap().addr.clone());
+                    let next = Some(r.members.last().unwrap().addr.clone());
+                    if next == cursor {
+                        break; // no progress (a defect in the code under test): do not walk forever
+                    }
+                    cursor = next;
                     out.extend(r.members.into_iter().map(|m| (Addr::unchecked(m.addr), m.weight)));
                 }
                 _ => break,
@@ -507,6 +583,7 @@ impl FlexScen {
         let ph: Vec<String> = self.ph.iter().map(|(i, h)| format!("{i}@{h}")).collect();
         let mut votes: Vec<String> = vec![];
         let mut pvotes: Vec<String> = vec![];
+        let mut nvotes: Vec<(usize, u64)> = vec![];
         for id in 1..=n {
             let l = lim_of(&mut rng);
             let v = self.page_all(l, &|c, l| {
@@ -517,10 +594,18 @@ impl FlexScen {
                         .collect()
                 })
             });
+            // `id:voter:vote:weight` entries of this proposal's listing
+            let listed: Vec<String> =
+                if v.is_empty() || v == "!err" { vec![] } else { v.split(',').map(|e| e.split(':').nth(1).unwrap_or("").to_string()).collect() };
+            nvotes.push((listed.len(), id));
             if !v.is_empty() {
                 votes.push(v);
             }
             for a in &u {
+                // wide: point queries only for the voters the listing returned
+                if self.wide && !listed.iter().any(|x| x == a.as_str()) {
+                    continue;
+                }
                 match self.qs::<VoteResponse>(flex, &FlexQuery::Vote { proposal_id: id, voter: a.to_string() }) {
                     Some(VoteResponse { vote: Some(v) }) => {
                         pvotes.push(format!("{}:{}:{}:{}", v.proposal_id, v.voter, render_vote(v.vote), v.weight))
@@ -557,7 +642,9 @@ impl FlexScen {
             .map(|h| h.hooks.join(","))
             .unwrap_or("!err".into());
         let mut heights: Vec<u64> = vec![];
-        for (_, h) in &self.ph {
+        // wide: only the start heights of the two most recent proposals
+        let ph_probe: &[(u64, u64)] = if self.wide { &self.ph[self.ph.len().saturating_sub(2)..] } else { &self.ph[..] };
+        for (_, h) in ph_probe {
             for x in [h.saturating_sub(1), *h, h + 1] {
                 if !heights.contains(&x) {
                     heights.push(x);
@@ -598,8 +685,30 @@ impl FlexScen {
                 format!("{o}:{a}")
             })
             .collect();
+        // C20 self-check of the listings (ListVotes: the three proposals with the most ballots)
+        let mut pagediff: Vec<String> = vec![];
+        if let Some(d) = paging_audit("list_proposals", &|c, l| self.q_list_props(c.and_then(|x| x.parse().ok()), l)) {
+            pagediff.push(d);
+        }
+        if let Some(d) = paging_audit("reverse_proposals", &|c, l| self.q_rev_props(c.and_then(|x| x.parse().ok()), l)) {
+            pagediff.push(d);
+        }
+        if let Some(d) = paging_audit("list_voters", &|c, l| self.q_list_voters(c, l)) {
+            pagediff.push(d);
+        }
+        if let Some(d) = paging_audit("list_members", &|c, l| self.q_list_members(c, l)) {
+            pagediff.push(d);
+        }
+        nvotes.sort_by(|a, b| b.0.cmp(&a.0).then(a.1.cmp(&b.1)));
+        for (_, id) in nvotes.iter().take(3) {
+            if let Some(d) = paging_audit("list_votes", &|c, l| self.q_list_votes(*id, c, l)) {
+                pagediff.push(d);
+            }
+        }
+        pagediff.dedup();
         format!(
-            "obs thr={} cfg={} props={} rprops={} pprops={} raw={} ph={} votes={} pvotes={} voters={} pvoters={} members={} gtotal={} gadmin={} ghooks={} snap={} bank={} cw20={} allow={}",
+            "obs pagediff={} thr={} cfg={} props={} rprops={} pprops={} raw={} ph={} votes={} pvotes={} voters={} pvoters={} members={} gtotal={} gadmin={} ghooks={} snap={} bank={} cw20={} allow={}",
+            pagediff.join(","),
             thr,
             cfg,
             props,
@@ -884,6 +993,168 @@ impl FlexScen {
         )
     }
 
+    /// `cw3flexwide`: a large group with small weights, a long voting period, mostly no deposit
+    fn gen_inst_wide(&self, rng: &mut Rng) -> String {
+        let np = self.pool.len();
+        let k = if rng.chance(5, 6) { 31 + rng.below((np - 30) as u64) as usize } else { 1 + rng.below(np as u64) as usize };
+        let start = rng.below(np as u64) as usize;
+        let mut total: u64 = 0;
+        let mut members: Vec<String> = vec![];
+        for i in 0..k.min(np) {
+            let w = if rng.chance(1, 40) { 0 } else { 1 + rng.below(3) };
+            total += w;
+            members.push(format!("+{}:{}", self.pool[(start + i * 7) % np], w));
+        }
+        let t = total.max(1);
+        let thr = match rng.below(4) {
+            0 => format!("count:{}", 1 + rng.below(t)),
+            1 => format!("count:{t}"),
+            2 => format!("pct:{}", *rng.pick(&[500_000_000_000_000_000u128, 600_000_000_000_000_000, 1_000_000_000_000_000_000])),
+            _ => format!("quorum:{}:{}", 500_000_000_000_000_000u128, *rng.pick(&[300_000_000_000_000_000u128, 800_000_000_000_000_000])),
+        };
+        let period = if rng.chance(2, 3) { format!("h{}", 500 + rng.below(2000)) } else { format!("t{}", 50_000 + rng.below(50_000)) };
+        let deposit = if rng.chance(5, 6) { "-".to_string() } else { format!("native:{}:1:{}", DENOMS[0], rng.below(2)) };
+        let admin = if rng.chance(9, 10) { self.pool[0].to_string() } else { rng.pick(&self.pool).to_string() };
+        let mut bank: Vec<String> = self.pool.iter().map(|a| format!("{}:{}:{}", a, 40 + rng.below(60), rng.below(30))).collect();
+        bank.push(format!("{}:{}:{}", self.flex, rng.below(40), rng.below(6)));
+        let cw20bal: Vec<String> = self.pool.iter().map(|a| format!("{}:{}", a, rng.below(25))).collect();
+        format!(
+            "inst members={} admin={} hook={} thr={} period={} executor=- deposit={} bank={} cw20bal={}",
+            members.join(","),
+            admin,
+            rng.below(2),
+            thr,
+            period,
+            deposit,
+            bank.join(","),
+            cw20bal.join(",")
+        )
+    }
+
+    /// `cw3flexwide`: an explicit page request (cursor: none, an existing key, a non-key)
+    fn gen_page_query(&self, rng: &mut Rng, members: &[(Addr, u64)], most: u64) -> String {
+        let n = self.ph.len() as u64;
+        let lim = *rng.pick(&["-", "0", "1", "9", "10", "11", "29", "30", "31", "32", "100"]);
+        let idc = match rng.below(8) {
+            0 | 1 => "-".to_string(),
+            2 => "0".to_string(),
+            3 => (n + 1 + rng.below(7)).to_string(),
+            4 if rng.chance(1, 3) => u64::MAX.to_string(),
+            _ => (1 + rng.below(n.max(1))).to_string(),
+        };
+        let ac = match rng.below(8) {
+            0 | 1 => "-".to_string(),
+            2 => format!("+{}", rng.pick(&self.pool)),
+            3 => "-cosmwasm1m".to_string(),
+            4 if rng.chance(1, 2) => format!("-{INVALID_ADDR}"),
+            _ if !members.is_empty() => format!("+{}", rng.pick(members).0),
+            _ => "-".to_string(),
+        };
+        match rng.below(10) {
+            0 | 1 => format!("query list_proposals after={idc} limit={lim}"),
+            2 | 3 => format!("query reverse_proposals before={idc} limit={lim}"),
+            4 | 5 => {
+                let id = if rng.chance(3, 4) { most } else { rng.below(n + 2) };
+                format!("query list_votes id={id} after={ac} limit={lim}")
+            }
+            6 | 7 => format!("query list_voters after={ac} limit={lim}"),
+            _ => format!("query list_members after={ac} limit={lim}"),
+        }
+    }
+
+    /// `cw3flexwide`: proposals, votes on a focus proposal, group growth, page requests
+    fn gen_wide_op(&mut self, rng: &mut Rng) -> Option<String> {
+        let n = self.ph.len() as u64;
+        let cfg = self.config();
+        let members = self.members();
+        let r = rng.below(100);
+        if r < 5 {
+            self.last_env = true;
+            let dh = *rng.pick(&[1u64, 1, 2]);
+            return Some(format!(
+                "env height={} time={}",
+                self.block.height + dh,
+                self.block.time.nanos() + dh * 5_000_000_000
+            ));
+        }
+        // the focus proposal: the first one still open for votes on which some member with a snapshot weight
+        // has not voted; `most` = the one with the most ballots among those looked at
+        let mut focus = 0u64;
+        let mut fresh: Vec<Addr> = vec![];
+        let mut most = (0usize, 1u64);
+        let mut looked = 0;
+        for id in 1..=n {
+            let p = match self.prop(id) {
+                Some(p) => p,
+                None => continue,
+            };
+            if p.status == Status::Executed || p.expires.is_expired(&self.block) {
+                continue;
+            }
+            looked += 1;
+            if looked > 3 {
+                break;
+            }
+            let voted = self.voted_on(id);
+            if voted.len() > most.0 {
+                most = (voted.len(), id);
+            }
+            let h = self.ph.iter().find(|x| x.0 == id).map(|x| x.1).unwrap_or(0);
+            let f: Vec<Addr> = self
+                .pool
+                .iter()
+                .filter(|m| !voted.contains(&m.to_string()))
+                .filter(|m| {
+                    self.qs::<MemberResponse>(&self.group, &GroupQuery::Member { addr: m.to_string(), at_height: Some(h) })
+                        .and_then(|r| r.weight)
+                        .unwrap_or(0)
+                        >= 1
+                })
+                .cloned()
+                .collect();
+            if !f.is_empty() {
+                focus = id;
+                fresh = f;
+                break;
+            }
+        }
+        if r < 22 {
+            return Some(self.gen_page_query(rng, &members, most.1));
+        }
+        if r < 27 {
+            // grow / reshuffle the group (by its admin)
+            let admin = self.group_admin()?;
+            if admin == self.flex.as_str() {
+                return None;
+            }
+            let outside: Vec<&Addr> = self.pool.iter().filter(|a| !members.iter().any(|m| m.0 == **a)).collect();
+            let mut add: Vec<String> = vec![];
+            for a in outside.iter().take(1 + rng.below(6) as usize) {
+                add.push(format!("+{}:{}", a, 1 + rng.below(3)));
+            }
+            if add.is_empty() || rng.chance(1, 3) {
+                add.push(format!("+{}:{}", rng.pick(&self.pool), rng.below(4)));
+            }
+            let remove = if rng.chance(1, 4) && !members.is_empty() { format!("+{}", rng.pick(&members).0) } else { String::new() };
+            return Some(format!("group {} update_members add={} remove={}", admin, add.join(","), remove));
+        }
+        let propose_pct = if self.mode == 0 { 85 } else { 10 };
+        if focus == 0 || rng.below(100) < propose_pct {
+            let eoa: Vec<&(Addr, u64)> = members.iter().filter(|m| m.0 != self.flex && m.1 >= 1).collect();
+            let snd = if !eoa.is_empty() && rng.chance(19, 20) { rng.pick(&eoa).0.clone() } else { rng.pick(&self.pool).clone() };
+            let msgs = if rng.chance(1, 5) { self.gen_msgs(rng, false) } else { "-".to_string() };
+            let funds = match cfg.as_ref().and_then(|c| c.proposal_deposit.clone()) {
+                Some(_) => self.gen_funds(rng, &cfg, &snd),
+                None => "-".to_string(),
+            };
+            return Some(format!("exec {} propose title=T{} desc=D{} msgs={} latest=- funds={}", snd, rng.below(3), rng.below(3), msgs, funds));
+        }
+        let snd = if rng.chance(14, 15) { rng.pick(&fresh).clone() } else { rng.pick(&self.pool).clone() };
+        let v = *rng.pick(&["yes", "yes", "no", "abstain", "veto", "no"]);
+        let id = if rng.chance(9, 10) { focus } else { 1 + rng.below(n + 1) };
+        Some(format!("exec {snd} vote id={id} vote={v}"))
+    }
+
     fn gen_env(&self, rng: &mut Rng) -> String {
         let h = self.block.height;
         let t = self.block.time.nanos();
@@ -1032,7 +1303,7 @@ impl FlexScen {
 impl Scenario for FlexScen {
     fn start(&mut self, seed: u64, trace: u64) -> String {
         let api = MockApi::default();
-        let p = pool(&api, 6);
+        let p = pool(&api, if self.wide { 36 } else { 6 });
         // dry run: learn the deterministic contract addresses (code ids 1..3, instances 1..3)
         let mut app = App::default();
         let c = app.store_code(contract_cw20());
@@ -1082,7 +1353,8 @@ impl Scenario for FlexScen {
             )
             .unwrap();
         let header = format!(
-            "scenario cw3flex seed={} trace={} pool={} cw20={} group={} flex={} ghost={}",
+            "scenario {} seed={} trace={} pool={} cw20={} group={} flex={} ghost={}",
+            if self.wide { "cw3flexwide wide=1" } else { "cw3flex" },
             seed,
             trace,
             p.iter().map(|a| a.to_string()).collect::<Vec<_>>().join(","),
@@ -1109,9 +1381,25 @@ impl Scenario for FlexScen {
         self.last_env = false;
         self.fresh_inst = false;
         self.exec_failed = vec![];
+        self.group_dirty = false;
+        self.wide = a.get("wide") == Some("1");
     }
 
-    fn gen_op(&mut self, rng: &mut Rng, _step: usize) -> String {
+    fn gen_op(&mut self, rng: &mut Rng, step: usize) -> String {
+        let op = self.gen_op_inner(rng, step);
+        if self.wide && (op.starts_with("group ") || op.starts_with("inst ") || op.contains(" execute ")) {
+            self.group_dirty = true;
+        }
+        op
+    }
+
+    fn apply(&mut self, op: &str) -> Vec<String> {
+        self.apply_inner(op)
+    }
+}
+
+impl FlexScen {
+    fn gen_op_inner(&mut self, rng: &mut Rng, _step: usize) -> String {
         if self.app.is_none() {
             self.last_env = false;
             if rng.chance(1, 3) {
@@ -1119,7 +1407,27 @@ impl Scenario for FlexScen {
                 return self.gen_env(rng);
             }
             self.fresh_inst = true;
+            if self.wide {
+                self.mode = rng.below(2);
+                return self.gen_inst_wide(rng);
+            }
             return self.gen_inst(rng);
+        }
+        if self.wide {
+            if self.group_dirty {
+                // leave the block in which the group was written (instantiation included)
+                self.group_dirty = false;
+                self.fresh_inst = false;
+                self.last_env = true;
+                let dh = *rng.pick(&[1u64, 1, 2]);
+                return format!("env height={} time={}", self.block.height + dh, self.block.time.nanos() + dh * 5_000_000_000);
+            }
+            if rng.chance(19, 20) {
+                if let Some(op) = self.gen_wide_op(rng) {
+                    self.last_env = op.starts_with("env ");
+                    return op;
+                }
+            }
         }
         // leave the block of the instantiation most of the time (nobody has a snapshot weight in it)
         let p_env = if self.fresh_inst { 19 } else { 10 };
@@ -1298,7 +1606,7 @@ impl Scenario for FlexScen {
         format!("exec {snd} member_changed_hook")
     }
 
-    fn apply(&mut self, op: &str) -> Vec<String> {
+    fn apply_inner(&mut self, op: &str) -> Vec<String> {
         let a = Args::parse(op);
         let kind = a.pos.first().map(|s| s.as_str()).unwrap_or("");
         match kind {
@@ -1405,6 +1713,23 @@ impl Scenario for FlexScen {
                     self.ph.push((id, self.block.height));
                 }
                 vec![self.flex_outcome(ok, panicked, &log), self.observe(op)]
+            }
+            "query" => {
+                let k = a.pos.get(1).map(|s| s.as_str()).unwrap_or("");
+                let limit = a.opt_u32("limit");
+                let after = a.opt("after").map(|s| addr_text(&s));
+                let res: Option<Vec<String>> = match k {
+                    "list_proposals" => self.q_list_props(a.opt_u64("after"), limit),
+                    "reverse_proposals" => self.q_rev_props(a.opt_u64("before"), limit),
+                    "list_votes" => self.q_list_votes(a.u64("id"), after, limit),
+                    "list_voters" => self.q_list_voters(after, limit),
+                    "list_members" => self.q_list_members(after, limit),
+                    _ => None,
+                };
+                match res {
+                    Some(r) => vec![format!("> ok result={}", r.join(","))],
+                    None => vec!["> err".to_string()],
+                }
             }
             _ => vec![],
         }
